@@ -264,3 +264,18 @@ pub proof fn lemma_elems_end_ws(s: Seq<u8>, i: int, p: int)
     lemma_ws_end_bounds(s, i);
     if value_end(s, p).is_some() { lemma_value_end_bounds(s, p); }
 }
+
+pub proof fn lemma_has_bs_extend(s: Seq<u8>, i0: int, a: int, b: int)
+    requires i0 <= a <= b <= s.len(), 0 <= i0, forall|j: int| a <= j < b ==> #[trigger] s[j] != 0x5c,
+    ensures has_bs(s, i0, a) == has_bs(s, i0, b),
+{
+    if has_bs(s, i0, b) {
+        let j = choose|j: int| i0 <= j < b && 0 <= j < s.len() && s[j] == 0x5c;
+        assert(j < a);
+    }
+}
+pub proof fn lemma_has_bs_witness(s: Seq<u8>, i0: int, j: int, e: int)
+    requires 0 <= i0 <= j < e <= s.len(), s[j] == 0x5c,
+    ensures has_bs(s, i0, e),
+{ }
+
